@@ -4,6 +4,7 @@ import (
 	"go/ast"
 	"go/types"
 	"strings"
+	"sync"
 
 	"lachk/core"
 )
@@ -76,6 +77,86 @@ func c20ParamIndex(g *core.FuncInfo, v *types.Var) int {
 	return -1
 }
 
+// c20RecacheFn locates the function that rebuilds the derived state of the indexer by what it does, not
+// by its name: the one method of QuorumIndexer that clears the dirty flag. When several functions clear
+// it (one of them is then reported by C20.dirty), the one that also stores derived state or computes a
+// median is meant; the historic name only breaks a remaining tie. nil: nothing rebuilds the state.
+var c20RecacheMemo sync.Map // *core.Prog -> *core.FuncInfo
+
+func c20RecacheFn(p *core.Prog) *core.FuncInfo {
+	if v, ok := c20RecacheMemo.Load(p); ok {
+		return v.(*core.FuncInfo)
+	}
+	var methods, clearing []*core.FuncInfo
+	for _, f := range c20PkgFuncs(p) {
+		if f.Lit != nil || f.RecvTypeName() != c20QiT {
+			continue
+		}
+		methods = append(methods, f)
+		if len(c20DirtyAssigns(f, false)) > 0 {
+			clearing = append(clearing, f)
+		}
+	}
+	storesDerived := func(f *core.FuncInfo) bool {
+		for _, s := range c20Stores(f) {
+			if c20Derived[s.Field] {
+				return true
+			}
+		}
+		return false
+	}
+	rebuilds := func(f *core.FuncInfo) bool {
+		if storesDerived(f) {
+			return true
+		}
+		return len(f.SitesMay(func(cs *core.CallSite) bool { return cs.Name == "utils/wmedian.Of" }, 2)) > 0
+	}
+	pick := func(cands []*core.FuncInfo) *core.FuncInfo {
+		if len(cands) == 1 {
+			return cands[0]
+		}
+		var narrowed []*core.FuncInfo
+		for _, f := range cands {
+			if rebuilds(f) {
+				narrowed = append(narrowed, f)
+			}
+		}
+		if len(narrowed) == 1 {
+			return narrowed[0]
+		}
+		for _, f := range cands {
+			if f.Name == c20Recache {
+				return f
+			}
+		}
+		return nil
+	}
+	var rec *core.FuncInfo
+	if len(clearing) > 0 {
+		rec = pick(clearing)
+	} else {
+		var cands []*core.FuncInfo
+		for _, f := range methods {
+			if storesDerived(f) {
+				cands = append(cands, f)
+			}
+		}
+		if len(cands) > 0 {
+			rec = pick(cands)
+		}
+	}
+	c20RecacheMemo.Store(p, rec)
+	return rec
+}
+
+// c20RecacheAnchor resolves the rebuilding function for a clause (undecided when there is none).
+func c20RecacheAnchor(c *core.Ctx) *core.FuncInfo {
+	if rec := c20RecacheFn(c.P); rec != nil {
+		return rec
+	}
+	return c.Fn(c20Recache)
+}
+
 // c20RecacheHelpers returns the private helpers of recacheState: unexported methods of the indexer
 // whose every call site in the package lies in recacheState (or in another such helper) and is made on
 // the caller's receiver, and which are never used as a method value. Code in such a helper runs only
@@ -83,6 +164,7 @@ func c20ParamIndex(g *core.FuncInfo, v *types.Var) int {
 func c20RecacheHelpers(p *core.Prog) map[*core.FuncInfo]bool {
 	out := map[*core.FuncInfo]bool{}
 	funcs := c20PkgFuncs(p)
+	rec := c20RecacheFn(p)
 	type site struct {
 		from *core.FuncInfo
 		cs   *core.CallSite
@@ -115,13 +197,13 @@ func c20RecacheHelpers(p *core.Prog) map[*core.FuncInfo]bool {
 	for changed := true; changed; {
 		changed = false
 		for _, g := range funcs {
-			if out[g] || g.Obj == nil || g.Obj.Exported() || g.Name == c20Recache || g.RecvTypeName() != c20QiT {
+			if out[g] || g.Obj == nil || g.Obj.Exported() || g == rec || g.RecvTypeName() != c20QiT {
 				continue
 			}
 			cs := callers[g]
 			ok := len(cs) > 0 && refs[g.Obj] == len(cs)
 			for _, s := range cs {
-				if !(s.from.Name == c20Recache || out[s.from]) || !c20OnRecv(s.from, s.cs) || s.cs.InGo || s.cs.InDefer {
+				if !(s.from == rec || out[s.from]) || !c20OnRecv(s.from, s.cs) || s.cs.InGo || s.cs.InDefer {
 					ok = false
 				}
 			}
@@ -171,7 +253,7 @@ func c20DirtySetSites(f *core.FuncInfo) []core.Point {
 // or in a helper that always sets it) and stores into source state.
 func c20Dirtying(f *core.FuncInfo) []core.Point {
 	out := c20DirtySetSites(f)
-	for _, s := range c20Stores(f) {
+	for _, s := range c20StoresDeep(f.P, f, 2) {
 		if s.Field != c20Dirty && !c20Derived[s.Field] {
 			out = append(out, s.Pt)
 		}
@@ -184,8 +266,9 @@ func c20Dirtying(f *core.FuncInfo) []core.Point {
 // extracted `if h.dirty { h.recacheState() }`.
 func c20FreshSites(f *core.FuncInfo, depth int) []core.Point {
 	var out []core.Point
-	for _, cs := range f.CallsTo(c20Recache) {
-		if !cs.InGo && !cs.InDefer {
+	rec := c20RecacheFn(f.P)
+	for _, cs := range f.Calls() {
+		if fn, ok := cs.Callee.(*types.Func); ok && rec != nil && f.P.FuncOf(fn) == rec && !cs.InGo && !cs.InDefer && c20OnRecv(f, cs) {
 			out = append(out, cs.Pt)
 		}
 	}
@@ -202,7 +285,7 @@ func c20FreshSites(f *core.FuncInfo, depth int) []core.Point {
 // to a return runs recacheState (directly or through another such helper, bounded depth) or takes the
 // dirty == false edge, and so does every path from a dirtying statement of g to a return.
 func c20EnsuresClean(g *core.FuncInfo, depth int) bool {
-	if g == nil || depth <= 0 || g.Recv() == nil || g.RecvTypeName() != c20QiT || g.Name == c20Recache {
+	if g == nil || depth <= 0 || g.Recv() == nil || g.RecvTypeName() != c20QiT || g == c20RecacheFn(g.P) {
 		return false
 	}
 	fresh := core.PointSet(c20FreshSites(g, depth-1)...)
